@@ -55,13 +55,25 @@ let () =
     let g k = try List.assoc k kv with Not_found -> "" in
     let cls = g "class" in
     let report = List.mem cmd report_cmds in
+    let predicted = (flags = "pred") || (match prefix_strip "bal " flags with Some _ -> true | None -> false) in
+    (* "an error in any included file fails the whole command": when the whole tree is
+       structured (no raw file whose parseability is unknown) the loader's verdict on the tree
+       is known, and a command that follows includes must not succeed if it is an error *)
+    let has_raw = List.exists (fun e -> String.length e > 1 && e.[0] = 'F' && e.[1] = ':') (fields tree) in
+    let include_failure =
+      if cls = "OK" && cmd <> "format" && tree <> "" && (predicted || not has_raw) then
+        (let (fs, root) = decode_tree tree in
+         match K.load_error fs root with Some k -> Some (string_of_str k) | None -> None)
+      else None in
     let spec =
-      if K.clean_run_b report (class_of cls) (g "stdout_empty" = "1") (g "stderr_nonempty" = "1") then "ok"
+      if include_failure <> None then
+        "FAIL:" ^ cmd ^ " OK although the include graph fails to load (" ^
+        (match include_failure with Some k -> k | None -> "") ^ ")"
+      else if K.clean_run_b report (class_of cls) (g "stdout_empty" = "1") (g "stderr_nonempty" = "1") then "ok"
       else "FAIL:" ^ cmd ^ " " ^ cls ^
            (if g "sig" <> "" then " " ^ g "sig" else "") ^
            (if cls = "ERR" then (if g "stderr_nonempty" <> "1" then " without a diagnostic on stderr" else " with output on stdout") else "") in
     let model =
-      let predicted = (flags = "pred") || (match prefix_strip "bal " flags with Some _ -> true | None -> false) in
       if not predicted then "-"
       else begin
         let (fs, root) = decode_tree tree in
